@@ -166,11 +166,11 @@ def gen_cases(family, size, seed):
     return [l for l in out.split('\n') if l]
 
 
-def run_impl(cases, timeout=1200):
+def run_impl(cases, timeout=1200, threads=14):
     """Execute case lines on the real crate. Returns list of observation strings."""
     data = ('\n'.join(cases) + '\n').encode()
     try:
-        env = dict(ENV, VERIF_THREADS='14')
+        env = dict(ENV, VERIF_THREADS=str(threads))
         p = subprocess.run([HBIN, 'exec'], input=data, stdout=subprocess.PIPE, stderr=subprocess.PIPE,
                            timeout=timeout, env=env)
     except subprocess.TimeoutExpired:
